@@ -300,10 +300,13 @@ let () =
           end;
           (* ---- direct scans of the implementation's output against what the author wrote ---- *)
           (match impl with
-           | ROk out when lint = "0" ->
+           | ROk out when lint = "0" || has "scopes" ->
+               (* in lint mode only the scope scan applies (the other scans are about a real compilation) *)
+               let has0 = has in
+               let has name = has0 name && (lint = "0" || name = "scopes") in
                let need = List.exists has ["closed"; "optim"; "scopes"; "mapscripts"; "lists"; "textterm"; "hoist"; "cmdline"] in
                if need then begin
-                 match parse_model is_l is_d is_s autovars switches fcx true (text_of_string clifont) (zi (int_of_string climax)) (text_of_string src) with
+                 match parse_model is_l is_d is_s autovars switches fcx (lint = "0") (text_of_string clifont) (zi (int_of_string climax)) (text_of_string src) with
                  | Some p ->
                      let run name f = if has name then List.iteri (fun k m -> if k < 1 then fail name (Printf.sprintf "%s [optimize=%s] src=%S output=%S" m opt src out)) (f p out) in
                      run "closed" Oracles.closed; run "optim" Oracles.optim; run "scopes" Oracles.scopes; run "mapscripts" Oracles.mapscripts;
